@@ -25,7 +25,15 @@ class C15(Check):
             "TSIG removed / moved / repeated / followed or preceded by a record), chains signed by the harness's own RFC "
             "8945 signer; header ID differing from the query's in either octet at every envelope with no TSIG record, "
             "with a TSIG record whose Original ID is the query's / the header's / neither, MAC valid, empty or stale, "
-            "receiver with and without key; every RCODE 1..15 at every envelope, sent or set on the path. A case is the "
+            "receiver with and without key; every RCODE 1..15 at every envelope, sent or set on the path; zones made of records "
+            "of every registered type (common.GenRR over all types but SOA/OPT/TSIG, SVCB/HTTPS with every SvcParam kind) "
+            "in early envelopes followed by 1..4 later envelopes of natural / non-decreasing / equal length, every "
+            "composition of small such zones and sampled compositions of larger ones, AXFR, AXFR-style IXFR and difference "
+            "sequences, compression on and off; the receiver keeps every envelope and a received record counts as "
+            "transmitted only if its uncompressed wire form is that of the transmitted record when compared after the "
+            "channel was closed (and it must not have changed since it was received); envelopes of exactly 2^k-1, 2^k, "
+            "2^k+1 octets (k = 9..15) and 65533, 65534, 65535 octets as the only / first / middle / last / every envelope, "
+            "made of one large or of many records, with and without TSIG, read in chunks around those lengths. A case is the "
             "(kind, tsig, query, read list) tuple; "
             "non-trivial when at least two reads; distinct by hash of (function, arguments, output).")
     partial = [
